@@ -1,4 +1,6 @@
+pub mod faults;
 pub mod ir;
 pub mod progen;
+pub mod rewrites;
 pub mod soup;
 pub mod syngen;
